@@ -1494,12 +1494,13 @@ func specNoOperandNeeds66(k ocode.OcodeKind, mode int) bool {
 // ---------------------------------------------------------------------------
 
 //@ func processOcode
-//@ props C14 C10 C13 C01
+//@ props C14 C10 C13 C01 C03
 //@ option failure-is-event with-init
 //@ requires ctx != nil && machineCode != nil && ctx.VS != nil
 //@ requires ctx.BitMode == cpu.MODE_16BIT || ctx.BitMode == cpu.MODE_32BIT
 //@ requires ctx.DollarPosition <= 0xFFFFFFFF && len(*machineCode) <= 1<<40
 //@ ensures[frame] true
+//@ ensures[noparam.len@C03] specInNoOperandTable(oc.Kind) ==> result1 == nil && len(result0) == 1
 //@ ensures[noparam@C01] specInNoOperandTable(oc.Kind) && result1 == nil ==> specNoOperandOK(result0, specNoOperandEnc(oc.Kind, specMode(ctx.BitMode)))
 //@ assigns VariantStack
 
